@@ -27,6 +27,7 @@ let () =
 
 let () =
   Modelrun_ext.register reg;
+  Alloc_driver.register reg;
   try
     while true do
       let line = input_line stdin in
